@@ -81,7 +81,7 @@ def server_variants(tier_thorough, n):
     if tier_thorough:
         v.append(("200-complete-8pieces", {"kind": "full", "status": 200, "pieces": [1, 700, 1448, 2896, 4000, 5000, n - 1]}))
     v += [("200-cut@%d" % k, {"kind": "cut", "status": 200, "cut": k}) for k in cuts]
-    v += [("%d" % s, {"kind": "full", "status": s, "error_body": True}) for s in ([301, 404, 500] + ([302, 403, 503, 204] if tier_thorough else []))]
+    v += [("%d" % s, {"kind": "full", "status": s, "error_body": True}) for s in ([301, 404, 500] + ([302, 403, 429, 503] if tier_thorough else []))]
     v += [("stall-before-headers", {"kind": "stall", "status": 200, "cut": None}),
           ("stall@1000", {"kind": "stall", "status": 200, "cut": 1000}),
           ("refused", {"kind": "refused"}),
@@ -460,26 +460,27 @@ def parse_trace(path, cdir):
 
 
 def count_syscalls(trace_path):
-    """How many calls of each injectable kind the un-killed run made, and the index of the last
-    interesting `write` (the first write after the rename/unlink of the temp file)."""
+    """From the trace of the un-killed run: how many write(2) calls the thread that handles the
+    cache directory made up to and including the first one after the rename/unlink of the temp
+    file (these are the kill points `write#1 .. write#w`)."""
     txt = open(trace_path, encoding="utf-8", errors="replace").read().split("\n")
-    nwrite = 0
-    last = 0
-    seen_commit = False
-    done = False
+    main = None
     for ln in txt:
-        m = re.match(r"^\d+\s+(?:<\.\.\. )?(\w+)[ (]", ln)
-        if not m or "resumed>" in ln:
-            if "resumed>" not in ln:
-                continue
-        sysc = m.group(1) if m else ""
-        if "resumed>" in ln:
+        if "currency." in ln:
+            m = re.match(r"^(\d+)\s", ln)
+            if m:
+                main = m.group(1)
+                break
+    nwrite, last, seen_commit = 0, 0, False
+    for ln in txt:
+        m = re.match(r"^(\d+)\s+(\w+)\(", ln)
+        if not m or (main and m.group(1) != main):
             continue
+        sysc = m.group(2)
         if sysc == "write":
             nwrite += 1
-            if seen_commit and not done:
+            if seen_commit and not last:
                 last = nwrite
-                done = True
         if sysc in ("rename", "renameat", "renameat2", "unlink", "unlinkat") and "currency." in ln:
             seen_commit = True
     return {"writes_until_after_commit": last or nwrite}
@@ -802,7 +803,14 @@ def run(c):
                 if not os.path.exists(tp):
                     continue
                 w = count_syscalls(tp)["writes_until_after_commit"]
-                pts = [("write", i) for i in range(1, w + 1)] + [("mkdir", 1), ("fsync", 1), ("rename,renameat,renameat2", 1), ("unlink,unlinkat", 1)]
+                toks = " ".join(o["ops"] or [])
+                pts = [("write", i) for i in range(1, w + 1)] + [("mkdir", 1)]
+                if "fsync:" in toks:
+                    pts.append(("fsync", 1))
+                if "rename:" in toks:
+                    pts.append(("rename,renameat,renameat2", 1))
+                if "unlink:" in toks:
+                    pts.append(("unlink,unlinkat", 1))
                 for sysc, when in pts:
                     kills.append(dict(b, kill={"syscall": sysc, "when": when}))
         # 3. kill in the middle of a stalled transfer (temp file holds k bytes)
@@ -816,7 +824,7 @@ def run(c):
         if model_ok:
             judge_all(c, runner, kills, kobs, seen, stats)
         # a killed run must actually have been killed where intended (otherwise the crash point was not exercised)
-        landed = sum(1 for s, o in zip(kills, kobs) if o.get("killed_in") or (o.get("watch") or {}).get("killed"))
+        landed = sum(1 for s, o in zip(kills, kobs) if o["rc"] in (-9, 137) or (o.get("watch") or {}).get("killed"))
         crash_states = {}
         for s, o in zip(kills, kobs):
             kk = (o.get("killed_in") or ("mid-transfer" if (o.get("watch") or {}).get("killed") else "not-reached"))
@@ -849,7 +857,7 @@ def run(c):
                 "refused, chunked body without terminator, RST} x entry point {expression arguments, -f -, --fetch-currency} [x kill point: SIGKILL at the entry of the k-th write(2), "
                 "mkdir, fsync, rename, unlink (strace inject) or in the middle of a stalled transfer], each followed by a next start with the server unreachable; "
                 "distinct = distinct (prior, server, entry, config, kill point); non-trivial = the run contacted the server, touched the cache directory beyond opening the cache file, or was killed"
-                % ("thorough list incl. every 700 bytes" if c.thorough else "{0,1,1448,n-1}", "/302/403/503/204" if c.thorough else ""),
+                % ("thorough list incl. every 700 bytes" if c.thorough else "{0,1,1448,n-1}", "/302/403/429/503" if c.thorough else ""),
         "samples": stats["samples"],
         "traces_validated_against_impl": stats["traces"],
         "matrix_scenarios": nmatrix, "kill_scenarios": len(kills), "kills_landed": landed,
